@@ -58,6 +58,42 @@ Section LTS.
   Qed.
 End LTS.
 
+(* Post-yield transformer: after a step flagged by [is_post] (a semaphore post)
+   the thread has to take one extra no-op step before its next real step -- the
+   scheduling point the hook PREPROCESS_VERIF_SEM_POSTED provides right after
+   sem_post.  It only adds stuttering: every state reachable in the transformed
+   system projects to a state reachable in the original one, so invariants of
+   [step] carry over. *)
+Section PostYield.
+  Variable S : Type.
+  Variable step : S -> nat -> option S.
+  Variable is_post : S -> nat -> bool.
+
+  Definition py_pending (pend : list nat) (tid : nat) : bool := existsb (Nat.eqb tid) pend.
+
+  Definition py_step (sp : S * list nat) (tid : nat) : option (S * list nat) :=
+    let (s, pend) := sp in
+    if py_pending pend tid then Some (s, filter (fun t => negb (Nat.eqb tid t)) pend)
+    else match step s tid with
+         | Some s' => Some (s', if is_post s tid then tid :: pend else pend)
+         | None => None
+         end.
+
+  Lemma py_reachable_project init sp :
+    reachable (S * list nat) nat py_step (init, []) sp -> reachable S nat step init (fst sp).
+  Proof.
+    intros H. remember (init, @nil nat) as i0. induction H as [|[s pend] tid [s' pend'] Hr IH Hs]; subst.
+    - apply reach_init.
+    - simpl in *.
+      destruct (py_pending pend tid).
+      + inversion Hs; subst. exact IH.
+      + destruct (step s tid) as [s1|] eqn:E; [|discriminate].
+        inversion Hs; subst. eapply reach_step; eauto.
+  Qed.
+End PostYield.
+
+Arguments py_step {S} step is_post sp tid.
+Arguments py_pending pend tid.
 Arguments reachable {S L} step init _.
 Arguments run {S L} step s ls.
 
